@@ -96,6 +96,9 @@ pub struct HostState {
     pub resp_specs: BTreeMap<String, RespSpec>, // by token
     /// client requests (by token) that a scripted host fault was applied to
     pub faulted_tokens: BTreeMap<String, HostFault>,
+    /// for answers cut by a fault: where the cut fell ("head" | "body" | "beyond") and the complete encoded body part of
+    /// the answer the host meant to send
+    pub cut_places: BTreeMap<String, (&'static str, Vec<u8>)>,
     pub telemetry_script: VecDeque<u16>,        // statuses for successive telemetry uploads (empty = 200)
     pub history: Vec<String>,                   // protocol-level trace for C08/C09
     pub notify: Arc<tokio::sync::Notify>,
@@ -137,6 +140,7 @@ pub fn new_state(seed: u64) -> Shared {
         faults: BTreeMap::new(),
         resp_specs: BTreeMap::new(),
         faulted_tokens: BTreeMap::new(),
+        cut_places: BTreeMap::new(),
         telemetry_script: VecDeque::new(),
         history: Vec::new(),
         notify: Arc::new(tokio::sync::Notify::new()),
@@ -579,6 +583,12 @@ fn handle(st: &Shared, host: &'static str, conn: u64, idx: usize, m: Msg) -> Ans
         Some(HostFault::CutResponse(n)) => {
             ans.cut_after = Some(n);
             ans.close = true;
+            // where the cut falls: inside the head, inside the body, or beyond the end (no cut at all)
+            let head_end = ans.bytes.windows(4).position(|w| w == b"\r\n\r\n").map(|i| i + 4).unwrap_or(ans.bytes.len());
+            if let Some(t) = &token {
+                let place = if n >= ans.bytes.len() { "beyond" } else if n >= head_end { "body" } else { "head" };
+                g.cut_places.insert(t.clone(), (place, ans.bytes[head_end.min(ans.bytes.len())..].to_vec()));
+            }
         }
         Some(HostFault::KeyDoc(_)) => {}
         None => {}
